@@ -141,6 +141,13 @@ class Gen:
             # a const's elided reference lifetime is 'static; Verus wants it spelled out
             body = re.sub(r"&(?!')", "&'static ", body.split("=", 1)[0]) + "=" + body.split("=", 1)[1]
             self.count("R3-static")
+        if "subst" in o:
+            # R6 on a type: subst=OLD=>NEW replaces a field type (exactly once)
+            a, b = o["subst"].split("=>")
+            if body.count(a) != 1:
+                raise Lost("%s: subst pattern %r matched %d times" % (path, a, body.count(a)))
+            body = body.replace(a, b)
+            self.count("R6")
         if "rename" in o:
             body = re.sub(r"\b%s\b" % re.escape(it.name), o["rename"], body, count=1)
         if not re.match(r"\s*pub\b", body):
@@ -221,11 +228,12 @@ class Gen:
                     sreplaces.append((int(m.group(1)), m.group(2), m.group(3), ln))
                 elif p[0] in ("replace", "rreplace"):
                     # replace: OLD is Rust text matched token-wise (whitespace-insensitive); rreplace: OLD is a regular expression
-                    m = re.match(r"r?replace\s+(\d+|\?)\s+/(.*)/\s*=>\s*/(.*)/\s*$", st[3:])
+                    m = re.match(r"r?replace\s+(\d+|\?|\+)\s+/(.*)/\s*=>\s*/(.*)/\s*$", st[3:])
                     if not m:
                         raise Lost("%s:%d: bad //@replace" % (rel, ln))
                     # count `?` = zero or one occurrence (an anchor that a code change may legitimately remove)
-                    replaces.append((-2 if m.group(1) == "?" else int(m.group(1)), m.group(2), m.group(3), ln, p[0] == "rreplace"))
+                    # count `+` = one or more occurrences
+                    replaces.append((-2 if m.group(1) == "?" else -3 if m.group(1) == "+" else int(m.group(1)), m.group(2), m.group(3), ln, p[0] == "rreplace"))
                 elif p[0] == "selfmut":
                     selfmut = True
                 elif p[0] == "nested":
@@ -672,6 +680,11 @@ class Gen:
                 if len(found) > 1:
                     raise Lost("%s (%s:%d): R6 pattern /%s/ matched %d times, expected at most 1" % (path, rel, ln, old, len(found)))
                 self.count("R6" if found else "R6-absent")
+                continue
+            if cnt == -3:
+                if not found:
+                    raise Lost("%s (%s:%d): R6 pattern /%s/ not found" % (path, rel, ln, old))
+                self.count("R6", len(found))
                 continue
             if len(found) != cnt:
                 raise Lost("%s (%s:%d): R6 pattern /%s/ matched %d times, expected %d" % (path, rel, ln, old, len(found), cnt))
